@@ -284,3 +284,74 @@ Lemma hs_panic_free {A} (Iv : wpred) (m : M A) (Q : A -> Prop) s :
   hs Iv true m Q -> Iv (s_w s) ->
   match fst (m s) with Diverged | Panicked => False | _ => True end.
 Proof. intros H HI. specialize (H s HI I). destruct (m s) as [[a| | | |] s']; cbn; auto. Qed.
+
+(* ------------------------------------------------------------------ the temporary-file protocol, precisely *)
+Lemma mutate_np e o act s : e_pretend e = false ->
+  mutate e o act s = (Crashed, s) \/ mutate e o act s = (Fail, bump s o) \/ mutate e o act s = act (bump s o).
+Proof.
+  intros Hp. unfold mutate. rewrite Hp. fold (bump s o).
+  destruct (e_fault e) as [|k|k]; [now right; right| |]; destruct (Nat.eqb (s_n s) k); auto.
+Qed.
+Lemma cursor_writes_pretend e tmp chunks s : e_pretend e = true -> cursor_writes e tmp chunks s = (Ret tt, s).
+Proof.
+  intros Hp. induction chunks as [|c r IH]; cbn [cursor_writes]; [reflexivity|].
+  unfold bind. rewrite mutate_pretend by exact Hp. exact IH.
+Qed.
+Lemma write_atomically_pretend e p chunks s : e_pretend e = true -> write_file_atomically e p chunks s = (Ret tt, s).
+Proof.
+  intros Hp. unfold write_file_atomically, do_op. rewrite mutate_pretend by exact Hp.
+  rewrite cursor_writes_pretend by exact Hp. now rewrite mutate_pretend by exact Hp.
+Qed.
+
+Lemma cursor_writes_rule (Tv : bytes -> wpred) e tmp :
+  e_pretend e = false ->
+  (forall x c w, Tv x w -> Tv (x ++ c) (set_fs w (append_file (w_fs w) tmp c))) ->
+  forall chunks x s, Tv x (s_w s) ->
+    match cursor_writes e tmp chunks s with
+    | (Ret _, s') => Tv (x ++ concat chunks) (s_w s')
+    | (Fail, s') | (Crashed, s') => exists y, Tv y (s_w s')
+    | _ => False
+    end.
+Proof.
+  intros Hp Happ. induction chunks as [|c r IH]; intros x s HT; cbn [cursor_writes concat].
+  - cbn. now rewrite app_nil_r.
+  - unfold bind at 1.
+    destruct (mutate_np e (OAppend tmp) (f <- get_fs ;; put_fs (append_file f tmp c)) s Hp) as [E|[E|E]]; rewrite E.
+    + eauto.
+    + exists x. exact HT.
+    + rewrite append_act_eq. unfold wact, append_result. cbn [s_w bump with_w].
+      specialize (IH (x ++ c) (with_w (bump s (OAppend tmp)) (set_fs (s_w s) (append_file (w_fs (s_w s)) tmp c)))).
+      rewrite <- app_assoc in IH. apply IH. cbn [with_w s_w]. now apply Happ.
+Qed.
+
+Lemma write_atomically_rule (Iv : wpred) (Tv : bytes -> wpred) (bad : bool) e p chunks :
+  (forall w w', Iv w -> op_result (OOpen (p ++ tmp_suffix)) w = Some w' -> Tv [] w') ->
+  (forall x c w, Tv x w -> Tv (x ++ c) (set_fs w (append_file (w_fs w) (p ++ tmp_suffix) c))) ->
+  (forall x w, Tv x w -> Iv (drop_result (p ++ tmp_suffix) w)) ->
+  (forall w w', Tv (concat chunks) w -> op_result (ORename (p ++ tmp_suffix) p) w = Some w' -> Iv w') ->
+  (forall x w, Tv x w -> Iv w) ->
+  hoare Iv bad ptrue (write_file_atomically e p chunks) (fun _ => ptrue).
+Proof.
+  intros Hopen Happ Hdrop Hren Hweak s HI _.
+  destruct (e_pretend e) eqn:Hp.
+  { rewrite write_atomically_pretend by exact Hp. split; [exact HI|exact I]. }
+  unfold write_file_atomically, do_op.
+  destruct (mutate_np e (OOpen (p ++ tmp_suffix)) (apply_op (OOpen (p ++ tmp_suffix))) s Hp) as [E|[E|E]]; rewrite E.
+  - exact HI.
+  - exact HI.
+  - rewrite apply_op_eq. unfold wact. cbn [s_w bump].
+    destruct (op_result (OOpen (p ++ tmp_suffix)) (s_w s)) as [w1|] eqn:Eo; [|exact HI].
+    pose proof (Hopen _ _ HI Eo) as HT.
+    pose proof (cursor_writes_rule Tv e (p ++ tmp_suffix) Hp Happ chunks [] (with_w (bump s (OOpen (p ++ tmp_suffix))) w1) HT) as HC.
+    destruct (cursor_writes e (p ++ tmp_suffix) chunks _) as [[u| | | |] s2]; try contradiction.
+    + cbn [app] in HC.
+      destruct (mutate_np e (ORename (p ++ tmp_suffix) p) (apply_op (ORename (p ++ tmp_suffix) p)) s2 Hp) as [E2|[E2|E2]]; rewrite E2.
+      * eapply Hweak; eauto.
+      * rewrite drop_tmp_eq. cbn [s_w bump with_w]. eapply Hdrop; eauto.
+      * rewrite apply_op_eq. unfold wact. cbn [s_w bump].
+        destruct (op_result (ORename (p ++ tmp_suffix) p) (s_w s2)) as [w3|] eqn:Er.
+        -- split; [eapply Hren; eauto|exact I].
+        -- rewrite drop_tmp_eq. cbn [s_w bump with_w]. eapply Hdrop; eauto.
+    + destruct HC as (y & HC). rewrite drop_tmp_eq. cbn [s_w with_w]. eapply Hdrop; eauto.
+    + destruct HC as (y & HC). eapply Hweak; eauto.
+Qed.
